@@ -91,6 +91,25 @@ def run(repo: Repo, L: Ledger, tier: str):
             if isinstance(it, ast.Call) and dotted(it.func) == "enumerate" and it.args and it.args[0] is sp:
                 comp = n
     if comp is None:
+        # explicit loop appending one element per token to a list that is returned as the key
+        from .shared import append_loop_elt
+
+        for n in walk_shallow(keyf.node):
+            if isinstance(n, ast.For) and isinstance(n.iter, ast.Call) and dotted(n.iter.func) == "enumerate" and n.iter.args and n.iter.args[0] is sp:
+                got = append_loop_elt(n)
+                if got is None:
+                    continue
+                lv, elt = got
+                inits = [a for a in walk_shallow(keyf.node) if isinstance(a, ast.Assign) and is_name(a.targets[0], lv)]
+                rets = [r for r in walk_shallow(keyf.node) if isinstance(r, ast.Return)]
+                uses = [x for x in walk_shallow(keyf.node) if isinstance(x, ast.Name) and x.id == lv]
+                if (
+                    len(inits) == 1 and isinstance(inits[0].value, ast.List) and not inits[0].value.elts
+                    and len(rets) == 1 and norm(rets[0].value) in (f"tuple({lv})", lv)
+                    and len(uses) == 2 + sum(1 for _ in [x for x in ast.walk(n) if isinstance(x, ast.Name) and x.id == lv])
+                ):
+                    comp = ast.copy_location(ast.GeneratorExp(elt=elt, generators=[ast.comprehension(target=n.target, iter=n.iter, ifs=[], is_async=0)]), n)
+    if comp is None:
         raise AnalysisError(f"{keyf.short}: element expression over enumerate(re.split(...)) not found")
     gen = comp.generators[0]
     if not (isinstance(gen.target, ast.Tuple) and len(gen.target.elts) == 2 and all(isinstance(e, ast.Name) for e in gen.target.elts)):
